@@ -21,7 +21,7 @@ var ptrSeg = regexp.MustCompile(`^[\pL\pN\-_.~:|]+$`)
 
 var selFirst = []string{"liquid", "costarring", "declinate", "macallums", "altarage", "zinke", "plumless", "buckeroo", "Aa", "BB", "AaAa", "BBBB", "AaBB", "a", "b", "foo", "X", "key", "m", "l", "Name", "x1", "slash/part", "c_d", "notes", "nothing", "anyone", "allow", "inside", "island", "orbit", "android", "matchesx", "containsx", "emptyx", "asx"}
 var selRest = []string{"b", "c", "0", "1", "12", "007", "00", "010", "0x1", "first\nsecond", "a\rb", "tab\there", "m²", "Ⅷ", "二〇二四", "½", "CO₂", "k", "x y", "é", "A", "", "a.b", "a/b", "t~x", "q\"r", "-", "_u", ".", "..", "a/", "/b", "~1", "a~01", "not", "in", ".", "..", "cpu%", "%d", "100%s", "%!v", "a%2Fb", "%"}
-var litPool = []string{"", "a", "foo", "1", "-2.5", "0", "x y", "é", "a\"b", "b\\c", "/usr/bin", "/", "/a/", "\n", "\t\x00", "`", "a`b\r", "true", "0x1F", "日本", "\xff\xfe", "not", "in", "10", "-0", "1.50", "a.b", "\U0001F600", "'", "//a", "/a b", "/a~1b", "/x~0y", "/~1", "~1", "/tmp/a~1b~0", "\ufffd", "a\ufffdb", "\u00a0", "a\u3000b", "\u2003x", "\u200b", "\u00ad", "\u2028", "\\", "C:\\dir\\", "a\\", "\\\\", "(", ")", "a)", "(b", "™", "Томск", "• item", "Škoda", "step ①", "\u2060", "\U0001F622", "x\u0122", "\u0160\u0122", "a\x7fb", "\x7f", "\x1f", "\u0080", "\u009f", "\u00a0b", "del\x7f \x7f", "\ufeff", "\U000e0001", "\u0378", "\ud7ff", "\ue000", "v1.2", "rack.3", "node.07.dc1", "a.0", "x.00", "a.b.1", "r2.d2", "a.1.b", "null", "nil", "NULL", "none", "undefined", "100%", "%d", "%s%s", "%!", "a%2Fb", "\"prod\"", "`a`", "``", "\"\"", "\"a", "a\"", "x  y", "x\ty", "caf\xe9", "k\x80"}
+var litPool = []string{"", "a", "foo", "1", "-2.5", "0", "x y", "é", "a\"b", "b\\c", "/usr/bin", "/", "/a/", "\n", "\t\x00", "`", "a`b\r", "true", "0x1F", "日本", "\xff\xfe", "not", "in", "10", "-0", "1.50", "a.b", "\U0001F600", "'", "//a", "/a b", "/a~1b", "/x~0y", "/~1", "~1", "/tmp/a~1b~0", "\ufffd", "a\ufffdb", "\u00a0", "a\u3000b", "\u2003x", "\u200b", "\u00ad", "\u2028", "\\", "C:\\dir\\", "a\\", "\\\\", "(", ")", "a)", "(b", "™", "Томск", "• item", "Škoda", "step ①", "\u2060", "\U0001F622", "x\u0122", "\u0160\u0122", "a\x7fb", "\x7f", "\x1f", "\u0080", "\u009f", "\u00a0b", "del\x7f \x7f", "\ufeff", "\U000e0001", "\u0378", "\ud7ff", "\ue000", "v1.2", "rack.3", "node.07.dc1", "a.0", "x.00", "a.b.1", "r2.d2", "a.1.b", "null", "nil", "NULL", "none", "undefined", "100%", "%d", "%s%s", "%!", "a%2Fb", "\"prod\"", "`a`", "``", "\"\"", "\"a", "a\"", "x  y", "x\ty", "caf\xe9", "k\x80", "9223372036854775807", "9223372036854775808", "-9223372036854775809", "18446744073709551616", "123456789012345678901234567890", "99999999999999999999.5", "-0.0", "1e5", "007"}
 
 func genSelector(allowPtr bool) grammar.Selector {
 	n := 1 + rng.Intn(3)
